@@ -191,7 +191,7 @@ def script(cat, rng, kind, exhaustive_prof=None, items=None):
     return b.s
 
 
-def generate(seed, tier):
+def generate(seed, tier, rnd=0):
     rng = Rng(seed * 31 + 8)
     cats = {c["entry"]: c for c in catalogue() if c["entry"] in ("huffman(u8)", "huffman(u16)")}
     out = []
@@ -202,7 +202,7 @@ def generate(seed, tier):
         out.append(script(cat, rng.fork(), kind))
     # bounded-exhaustive: all profiles over <= 3 symbols with counts <= 3 x all item sequences of <= 2 items of <= 3 symbols
     maxc = 3 if tier != "thorough" else 4
-    for nsym in (1, 2, 3):
+    for nsym in ((1, 2, 3) if rnd == 0 else ()):
         for cs in itertools.product(range(1, maxc + 1), repeat=nsym):
             prof = {10 + 7 * i: c for i, c in enumerate(cs)}
             syms = sorted(prof)
